@@ -346,6 +346,15 @@ def path_sensitive(facts, body):
             good = any({a, b} in ({"b64(footer.str)", "parts0[3]"}, {"b64('')", "parts0[3]"}) for a, b in eqs)
             if not good:
                 v["footer"] = [False, "a 4-segment token is accepted without encode(expected footer or default) having been found equal to segment 3 when [%s]" % cond]
+        if lo <= 3:
+            # without a footer segment the token matches only an absent or empty expected footer: otherwise an authentic token with
+            # footer F whose footer segment was cut off is accepted by a caller who expects F (F is authenticated from the caller's value)
+            _flo, fhi = o.state.bounds.get("len(footer)", (0, A.LEN_MAX))
+            if any(c == "footer is Some" for c in o.state.cond) and fhi >= 1:
+                v["footer"] = [False, "a 3-segment token is accepted although a non-empty footer is expected (an authentic token whose footer segment "
+                                      "was deleted passes) when [%s]" % cond]
+            elif not any(c in ("footer is Some", "footer is None") for c in o.state.cond):
+                v["footer"] = [False, "a 3-segment token is accepted without the expected footer having been examined when [%s]" % cond]
         h0 = any({a, b} == {"{parts0[0]}.{parts0[1]}.", "{V}.{P}."} or {a, b} == {"parts0[0]", "V"} for a, b in eqs)
         h1 = any({a, b} == {"{parts0[0]}.{parts0[1]}.", "{V}.{P}."} or {a, b} == {"parts0[1]", "P"} for a, b in eqs)
         if not h0:
